@@ -60,6 +60,15 @@ def _work(task):
             if only is not None and not any(x in ob.name for x in only):
                 continue            # this property needs only some of the contract's obligations (the rest run under others)
             r = solve(ob, timeout_ms=c.timeout or timeout_ms)
+            zm = r.pop('_z3model', None)
+            if r['status'] == 'refuted' and zm is not None and (ob.info or {}).get('_entry_vars') and block is None \
+                    and not r.get('case'):       # (a case-split leaf's model does not mention the split term)
+                try:
+                    from pyvc.replay_harness import extract
+                    r['replay_inputs'] = extract(ex, fi, c, ob.info['_entry_vars'], zm)
+                except Exception as exr:  # noqa
+                    r['replay_inputs'] = None
+                    r['replay_note'] = f'input extraction failed: {exr!r}'
             r.update(name=ob.name, kind=ob.kind, clause=(ob.info or {}).get('clause') or (ob.info or {}).get('why'),
                      size=len(ob.assumptions))
             if r['status'] != 'proved':
@@ -241,6 +250,8 @@ def summarise(pid, tier, seed, outs, lemma_results, assumed, wall, verbose):
                 e['model'] = e['model'] or r.get('smt_model')
                 e['model_dict'] = e.get('model_dict') or r.get('model')
                 e['case'] = e.get('case') or r.get('case')
+                if r.get('replay_inputs'):
+                    e.setdefault('replay_inputs', []).append(r['replay_inputs'])
             elif r['status'] == 'unknown' and e['status'] == 'proved':
                 e['status'] = 'unknown'
                 e['case'] = r.get('case')
